@@ -658,3 +658,34 @@ CHECKS["C05"] = dict(
                "command arrival with search progress are explored by the controlled scheduler.",
     level_note="Trusted: the transcript analyser; free-running sessions see the OS's schedule only (the scheduled part covers interleavings).",
 )
+
+# ------------------------------------------------------------------------------------------ C06
+def c06_parts(tier, seed):
+    T = "c06_time"
+    return [
+        P("allocation-grid", T, "sched", ["--part", "grid"], require=["nontrivial"]),
+        P("delivery-rate1", T, "sched", ["--part", "delivery", "--rate", 1], require=["nontrivial", "searched_moves"], deadline_frac=0.9),
+        P("delivery-rate100", T, "sched", ["--part", "delivery", "--rate", 100], require=["nontrivial"], deadline_frac=0.9),
+    ] + ([] if tier == "quick" else [P("delivery-asan", T, "sched-asan", ["--part", "delivery", "--rate", 20, "--tier", "quick"], require=["nontrivial"], deadline_frac=0.5)])
+
+CHECKS["C06"] = dict(
+    engine="vsched-explorer",
+    parts=c06_parts,
+    rule="states = (time control, options, side) tuples evaluated by the real computeTimeLimit resp. timed sessions executed; transitions = limit pairs checked / transcript lines; "
+         "non-trivial = the buffer actually reduces the budget (grid) / the run ended because of a time limit or an injected stop/ponderhit (not by depth or mate)",
+    alphabet="grid: clocks {1,2,9,10,11,99,100,101,999,1000,1001,1999,2000,1e4,1e5,1e6,1e7}^2 x increments {0,1,10,999,1e4,1e5}^2 x movestogo {0,1,2,3,34,35,36,100} x BufferTime "
+             "{1,10,1000,10000} x Ponder x side, and movetime {1,10,1000,1e5}; delivery: real UCI sessions (Threads 1) under the controlled scheduler with a virtual clock driven by "
+             "searched nodes (rate 1 and 100 us per move made by the search): movetime {1,10,50,300}, clock {10,100,1200,2300[,5000]} x movestogo {0,1,2,35} x inc {0,50} x options "
+             "{default, BufferTime 1, Ponder[, BufferTime 10000, MaxNPS]} x positions {one legal move, KPK, startpos, middlegame}; stop / ponderhit injected after k = 1..10 (24) virtual ms",
+    oracle="grid: 1 <= soft <= hard <= budget (movetime, resp. clock - min(BufferTime, 0.9 clock)), read from the real object; delivery (virtual time): bestmove - go <= budget + I with the "
+           "nominal polling interval I = 2 x 1000 nodes x rate (+1 ms rounding); after stop / ponderhit with exhausted limits bestmove - return of the limit-changing Search::timeLimit call "
+           "<= I + 10 ms (release loop); plus deadlock / contract oracles",
+    bound=dict(quick="full grid (1.3 M tuples); ~460 timed sessions per rate", thorough="more options and clocks, k up to 24, ASan sessions"),
+    assumptions=["wall-clock behaviour (OS stalls) is outside any deterministic check; clocks of 0 and increments > 1e5 are outside the quantifier",
+                 "the virtual clock advances only with moves made by the search (ld --wrap of Position::makeMove) and with sleeps; scheduling points and clock queries are free",
+                 "Threads 1 for timed sessions (the stop test runs on the main search thread)"],
+    technique="exhaustive enumeration of the time-allocation grid on the real code, plus deterministic execution of timed sessions under a controlled scheduler and virtual clock with fault "
+              "(stop / ponderhit) injection at every polling index",
+    level_text="The allocation arithmetic is evaluated on the complete boundary grid; delivery is checked by running the real engine under a node-driven virtual clock, so every run is deterministic and replayable.",
+    level_note="Trusted: the virtual clock seam (clock_gettime, nanosleep interposition; makeMove wrap as work tick).",
+)
